@@ -9,9 +9,9 @@ HARNESS_PKG = "c43"
 HARNESS_RUNNER = "c43"
 COQ_TARGETS = ["theories/C43/Corr.vo"]
 COQ_CORR_MODULE = "C29.Model C29.Spec C29.Corr C43.Model C43.Spec C43.Corr"
-COQ_CASE_TYPE = "C43.Corr.case"
-COQ_CHECK = "C43.Corr.check_case"
-COQ_MODEL_OBS = "(fun c => C43.Corr.model_obs (fst c))"
+COQ_CASE_TYPE = "(list C43.Corr.pcase)"
+COQ_CHECK = "C43.Corr.check_multi"
+COQ_MODEL_OBS = "(fun cs => map (fun c => C43.Corr.model_obs_p (fst c) (fst (snd c))) cs)"
 COQ_SHARD = 150
 DESIGN_REF = "§5 C43 (on the C29 model)"
 TECHNIQUE = ("Coq proof (conflict list of the merge model = the declarative conflict entries; resolve --ours/--theirs sets exactly that version, "
@@ -19,26 +19,79 @@ TECHNIQUE = ("Coq proof (conflict list of the merge model = the declarative conf
 LEVEL_TEXT = ("Proof (F/M): for every ancestor/left/right table the conflict list of the merge model is exactly the declarative conflict entries "
               "(base, ours, theirs) — unconditionally for equal schemas, in C29's schema class otherwise — and for every table and conflict list "
               "resolving with ours/theirs leaves every conflicted key with exactly that version (deleted when absent), every other key untouched, "
-              "and no conflicts (resolve_spec, resolve_idempotent); the secondary-index maintenance of resolve --theirs keeps the index mirroring the table (resolve_preserves_mirror); the oracle accepts the model on every input (oracle_on_model). Tied to the code by conflicted merges of generated divergent histories, "
+              "and no conflicts (resolve_spec, resolve_idempotent); the secondary-index maintenance of resolve --theirs keeps the index mirroring the table (resolve_preserves_mirror); the oracle accepts the model on every input (oracle_on_model; the check evaluates the generalisation oracle_p / model_obs_p with prior artifacts, per table of a multi-table resolve; at prior = [] it is proved equal to the single-merge check — model_obs_p_nil, oracle_p_nil, check_case_p_nil, oracle_on_model_p_nil; oracle_on_model_p for a non-empty, well-formed prior is not proved). Tied to the code by conflicted merges of generated divergent histories, "
               "dolt_conflicts_t and dolt_conflicts_resolve on two copies of each merge.")
 LEVEL_NOTE = ("Trusted: Coq kernel, Go harness (SQL script runner), Python glue. Modelled, not verified: SQL DML (input tables are read back), the artifact "
               "map encoding, the prolly encoding of secondary indexes (the index is modelled by its entry set; resolve_preserves_mirror proves the maintenance keeps it mirroring the table, and in the quarter of the cases with an index every value of the indexed column is looked up after both resolutions and compared), "
               "schema-changing merges (dolt refuses to resolve when the table schema differs from the chosen side's: ErrConfSchIncompatible; not generated).")
 THEOREMS = ["resolve_spec", "resolve_theirs_spec", "resolve_idempotent", "conflicts_exact_spec", "conflicts_exact_same_schema",
-            "resolve_preserves_mirror", "conflict_keys_distinct", "mirror_build", "oracle_on_model"]
+            "resolve_preserves_mirror", "conflict_keys_distinct", "mirror_build", "oracle_on_model",
+            "model_obs_p_nil", "oracle_p_nil", "check_case_p_nil", "oracle_on_model_p_nil"]
 RULE = ("C29's generator without schema changes: 1-2 int key columns, 2-4 nullable int/varchar columns, 0-12 base rows, two branches of 0-7 "
         "inserts/updates/deletes biased to a hot set of keys and cells, optional secondary index; conflicted merge, then resolve --ours and --theirs on "
-        "separate copies; non-trivial = at least one conflict; distinct by script text")
-ASSUMPTIONS = ["no schema change between the branches (dolt_conflicts_resolve rejects differing schemas)"]
+        "separate copies; in 60% of the cases a second table u with its own history and ONE resolve call naming both tables (or '.'); in 25% "
+        "two successive merges (r, commit with conflicts kept, r2) so that one table carries conflict artifacts with two different their-roots; "
+        "non-trivial = at least one conflict; distinct by script text")
+ASSUMPTIONS = ["no schema change between the branches (dolt_conflicts_resolve rejects differing schemas)",
+               "chained merges: the two merged branches edit disjoint key sets, so no key carries conflict artifacts of both generations",
+               "a second merge that dolt refuses ('the table(s) t are in conflict') is checked as the single-merge case it leaves behind"]
 REQUIRED_TAGS = ["conflict", "no-conflict", "modify-modify", "delete-modify", "insert-insert", "theirs-absent", "ours-absent", "untouched-rows",
-                 "index-lookup-after-resolve"]
+                 "index-lookup-after-resolve", "multi-table-resolve", "multi-table-resolve-dot", "conflicts-from-two-merges"]
 
 
-def gen_one(rng):
+def gen_scn(rng):
     while True:
         c = g.gen_one(rng)
         if c["kind"] is None and not any("collate" in x for x in c["setup"]):   # representation variants are C29's business
             return c
+
+
+def retable(stmt):
+    """the same statement on table u (index ixu)"""
+    for a_, b_ in (("create table t (", "create table u ("), ("create index ix on t (", "create index ixu on u ("), ("insert into t ", "insert into u "),
+                   ("replace into t ", "replace into u "), ("update t set", "update u set"), ("delete from t where", "delete from u where")):
+        if stmt.startswith(a_):
+            return b_ + stmt[len(a_):]
+    return stmt
+
+
+def gen_chain(rng):
+    """conflicts accumulated from two successive merges: l edits all keys, r edits K1, r2 edits K2 (disjoint), so the
+    table ends up with artifacts whose their-roots differ"""
+    pk = ["p0"]
+    cols = [("c0", "int"), ("c1", "int" if rng.random() < 0.6 else "str")]
+    k1 = [(0,), (1,), (2,)]
+    k2 = [(3,), (4,), (5,)]
+    setup = ["create table t (p0 int not null, c0 int, c1 %s, primary key (p0))" % g.sqlty(cols[1][1])]
+    index = rng.random() < 0.3
+    if index:
+        setup.append("create index ix on t (c0)")
+    for k in k1 + k2:
+        if rng.random() < 0.75:
+            setup.append("insert into t values (%d, %s)" % (k[0], ", ".join(g.lit(t, rng) for _, t in cols)))
+    hc = ["c0", "c1"]
+    return {"pk": pk, "setup": setup, "kind": None, "index": index, "chain": True,
+            "l": g.gen_dml(rng, pk, cols, k1 + k2, k1 + k2, rng.randint(2, 7), hc),
+            "r": g.gen_dml(rng, pk, cols, k1, k1, rng.randint(1, 4), hc),
+            "r2": g.gen_dml(rng, pk, cols, k2, k2, rng.randint(1, 4), hc)}
+
+
+def gen_one(rng):
+    if rng.random() < 0.25:
+        return gen_chain(rng)
+    c = gen_scn(rng)
+    if rng.random() < 0.6:
+        # a second table with its own history: one dolt_conflicts_resolve call then names both tables (or '.')
+        u = gen_scn(rng)
+        for k in ("setup", "l", "r"):
+            u[k] = [retable(x) for x in u[k]]
+        c["u"] = u
+        c["dot"] = rng.random() < 0.4
+    return c
+
+
+def tabs(c):
+    return [("t", c, "")] + ([("u", c["u"], "_u")] if c.get("u") else [])
 
 
 def with_steps(c):
@@ -47,32 +100,49 @@ def with_steps(c):
 
     def q(s, keep=""):
         S.append({"q": s, "keep": keep} if keep else {"q": s})
-    sel = "select * from t order by %s" % ", ".join(c["pk"])
-    for s in c["setup"]:
-        q(s)
+
+    def sel(tn, sc):
+        return "select * from %s order by %s" % (tn, ", ".join(sc["pk"]))
+    for tn, sc, suf in tabs(c):
+        for s in sc["setup"]:
+            q(s)
     q("call dolt_commit('-Am','base')")
-    q(sel, "B")
-    for side in ("l", "r"):
+    for tn, sc, suf in tabs(c):
+        q(sel(tn, sc), "B" + suf)
+    for side in ("l", "r") + (("r2",) if c.get("chain") else ()):
         q("call dolt_checkout('main')")
         q("call dolt_checkout('-b','%s')" % side)
-        for s in c[side]:
-            q(s)
+        for tn, sc, suf in tabs(c):
+            for s in sc[side]:
+                q(s)
         q("call dolt_commit('--allow-empty','-Am','%s')" % side)
-        q(sel, side.upper())
+        for tn, sc, suf in tabs(c):
+            q(sel(tn, sc), side.upper() + suf)
     q("set @@dolt_allow_commit_conflicts=1")
     q("set @@dolt_force_transaction_commit=1")
+    names = "'.'" if c.get("dot") else ", ".join("'%s'" % tn for tn, _, _ in tabs(c))
     for name, how in (("mo", "--ours"), ("mt", "--theirs")):
         q("call dolt_checkout('l')")
         q("call dolt_checkout('-b','%s')" % name)
-        q("call dolt_merge('r')", name)
-        q(sel, name + "t")
-        q("select * from dolt_conflicts_t", name + "c")
-        q("call dolt_conflicts_resolve('%s', 't')" % how, name + "r")
-        q(sel, name + "rt")
-        q("select count(*) from dolt_conflicts_t", name + "rc")
-        for j, v in enumerate(probes(c)):
-            # lookup through the secondary index on the first non-key column
-            q("select %s from t where c0 = %s order by %s" % (", ".join(c["pk"]), v, ", ".join(c["pk"])), "%sx%d" % (name, j))
+        if c.get("chain"):
+            # first merge; its conflicts are committed; the second merge adds conflicts with another their-root
+            q("call dolt_merge('r')", name + "1")
+            q(sel("t", c), name + "1t")
+            q("select * from dolt_conflicts_t", name + "1c")
+            q("call dolt_commit('--force', '-am', 'first merge, conflicts kept')", name + "1k")
+            q("call dolt_merge('r2')", name)
+        else:
+            q("call dolt_merge('r')", name)
+        for tn, sc, suf in tabs(c):
+            q(sel(tn, sc), name + "t" + suf)
+            q("select * from dolt_conflicts_%s" % tn, name + "c" + suf)
+        q("call dolt_conflicts_resolve('%s', %s)" % (how, names), name + "r")
+        for tn, sc, suf in tabs(c):
+            q(sel(tn, sc), name + "rt" + suf)
+            q("select count(*) from dolt_conflicts_%s" % tn, name + "rc" + suf)
+            for j, v in enumerate(probes(sc)):
+                # lookup through the secondary index on the first non-key column
+                q("select %s from %s where c0 = %s order by %s" % (", ".join(sc["pk"]), tn, v, ", ".join(sc["pk"])), "%sx%d%s" % (name, j, suf))
     c["steps"] = S
     return c
 
@@ -94,11 +164,27 @@ def fixed_cases():
     return [{"pk": ["p0"], "setup": base2,
              "l": ["update t set c0=7 where p0=1", "update t set c1=7 where p0=2", "delete from t where p0=3", "insert into t values (4,4,4)", "update t set c0=0 where p0=5"],
              "r": ["update t set c1=8 where p0=1", "update t set c1=8 where p0=2", "update t set c0=0 where p0=3", "insert into t values (4,4,5)", "delete from t where p0=5", "insert into t values (6,6,6)"],
-             "kind": None, "index": False}]
+             "kind": None, "index": False}] + [two_table_case(dot) for dot in (False, True)] + [
+        {"pk": ["p0"], "setup": ["create table t (p0 int not null, c0 int, c1 int, primary key (p0))", "insert into t values (1,1,1),(2,2,2),(3,3,3),(4,4,4)"],
+         "kind": None, "index": False, "chain": True,
+         "l": ["update t set c0=10 where p0=1", "update t set c0=20 where p0=3", "update t set c0=40 where p0=4"],
+         "r": ["update t set c0=11 where p0=1"],
+         "r2": ["update t set c0=22 where p0=3", "delete from t where p0=4"]}]
+
+
+def two_table_case(dot):
+    def scn(tn):
+        return {"pk": ["p0"], "setup": ["create table %s (p0 int not null, c0 int, c1 int, primary key (p0))" % tn, "insert into %s values (1,1,1),(2,2,2),(3,3,3)" % tn],
+                "l": ["update %s set c0=7 where p0=1" % tn, "delete from %s where p0=2" % tn], "r": ["update %s set c0=8 where p0=1" % tn, "update %s set c1=9 where p0=2" % tn],
+                "kind": None, "index": False}
+    c = scn("t")
+    c["u"] = scn("u")
+    c["dot"] = dot
+    return c
 
 
 def gen_cases(rng, tier):
-    n = 200 if tier == "quick" else 5000
+    n = 150 if tier == "quick" else 5000
     cases = fixed_cases()
     while len(cases) < n:
         cases.append(gen_one(rng))
@@ -106,56 +192,109 @@ def gen_cases(rng, tier):
 
 
 def parse(case, out):
+    """-> list of per-table dicts (None when the script itself failed)"""
     o = out.get("obs")
-    need = ("B", "L", "R", "mo", "mot", "moc", "mor", "mort", "morc", "mt", "mtt", "mtc", "mtr", "mtrt", "mtrc")
-    if not o or any(k not in o for k in need):
+    if not o:
         return None
-    if o["B"]["err"] or o["L"]["err"] or o["R"]["err"]:
+    res = []
+    for tn, sc, suf in tabs(case):
+        d = parse_tab(sc, o, suf)
+        if d is None:
+            return None
+        res.append(d)
+    if case.get("chain"):
+        d = res[0]
+        d["prior"] = []
+        for k in ("mo1", "mo1t", "mo1c", "mo1k", "mt1", "mt1t", "mt1c", "mt1k", "R2"):
+            if k not in o:
+                return None
+            if o[k]["err"] and not k.endswith("1k"):
+                d["err"] = True
+                d["errtxt"] = o[k]["err"][:200]
+        if d.get("refused"):
+            # dolt refused the second merge ("the table(s) t are in conflict"): nothing was merged, the table still carries
+            # the first merge's conflicts only -> checked as an ordinary single-merge case (ours = l, theirs = r)
+            pass
+        elif not d["err"]:
+            pk = case["pk"]
+            _, rows1 = g.read_table(o["mo1t"], pk)
+            _, rows1b = g.read_table(o["mt1t"], pk)
+            prior = g.read_conflicts(o["mo1c"], pk, d["s"], d["s"], d["s"])
+            priorb = g.read_conflicts(o["mt1c"], pk, d["s"], d["s"], d["s"])
+            _, r2 = g.read_table(o["R2"], pk)
+            if rows1 != rows1b or sorted(map(repr, prior)) != sorted(map(repr, priorb)):
+                d["same"] = False
+            # the second merge: ours = the committed result of the first merge, theirs = r2
+            d["L"], d["R"], d["prior"] = rows1, r2, prior
+    return res
+
+
+def parse_tab(case, o, suf):
+    need0 = ("B", "L", "R", "mot", "moc", "mort", "morc", "mtt", "mtc", "mtrt", "mtrc")
+    need = tuple(k + suf for k in need0) + ("mo", "mor", "mt", "mtr")
+    if any(k not in o for k in need):
+        return None
+    if o["B" + suf]["err"] or o["L" + suf]["err"] or o["R" + suf]["err"]:
         return None
     pk = case["pk"]
     d = {}
-    d["s"], d["B"] = g.read_table(o["B"], pk)
-    sl, d["L"] = g.read_table(o["L"], pk)
-    sr, d["R"] = g.read_table(o["R"], pk)
+    d["s"], d["B"] = g.read_table(o["B" + suf], pk)
+    sl, d["L"] = g.read_table(o["L" + suf], pk)
+    sr, d["R"] = g.read_table(o["R" + suf], pk)
     if sl != d["s"] or sr != d["s"]:
         return None
-    d["err"] = any(o[k]["err"] for k in need)
+    refused = case.get("chain") and all("are in conflict" in o[k]["err"] for k in ("mo", "mt"))
+    d["refused"] = bool(refused)
+    d["err"] = any(o[k]["err"] for k in need if not (refused and k in ("mo", "mt")))
     d["errtxt"] = "; ".join(o[k]["err"][:200] for k in need if o[k]["err"])
     if d["err"]:
         return d
-    _, d["rows"] = g.read_table(o["mot"], pk)
-    d["conf"] = g.read_conflicts(o["moc"], pk, d["s"], d["s"], d["s"])
-    conf2 = g.read_conflicts(o["mtc"], pk, d["s"], d["s"], d["s"])
-    _, rows2 = g.read_table(o["mtt"], pk)
+    _, d["rows"] = g.read_table(o["mot" + suf], pk)
+    d["conf"] = g.read_conflicts(o["moc" + suf], pk, d["s"], d["s"], d["s"])
+    conf2 = g.read_conflicts(o["mtc" + suf], pk, d["s"], d["s"], d["s"])
+    _, rows2 = g.read_table(o["mtt" + suf], pk)
     d["same"] = (sorted(map(repr, conf2)) == sorted(map(repr, d["conf"])) and rows2 == d["rows"])
-    _, d["ours"] = g.read_table(o["mort"], pk)
-    _, d["theirs"] = g.read_table(o["mtrt"], pk)
+    _, d["ours"] = g.read_table(o["mort" + suf], pk)
+    _, d["theirs"] = g.read_table(o["mtrt" + suf], pk)
     pki = list(range(len(pk)))
     for name, key in (("mo", "ours_ix"), ("mt", "theirs_ix")):
         d[key] = []
         for j, v in enumerate(probes(case)):
-            res = o.get("%sx%d" % (name, j))
+            res = o.get("%sx%d%s" % (name, j, suf))
             if res is None or res["err"]:
                 d["err"] = True
                 d["errtxt"] = "index lookup failed"
                 return d
             d[key].append((probe_val(v), [g.keyN([g.val(r[i]) for i in pki]) for r in res["rows"]]))
-    d["ours_left"] = g.val(o["morc"]["rows"][0][0]) if o["morc"]["rows"] else 99
-    d["theirs_left"] = g.val(o["mtrc"]["rows"][0][0]) if o["mtrc"]["rows"] else 99
+    d["ours_left"] = g.val(o["morc" + suf]["rows"][0][0]) if o["morc" + suf]["rows"] else 99
+    d["theirs_left"] = g.val(o["mtrc" + suf]["rows"][0][0]) if o["mtrc" + suf]["rows"] else 99
+    d["probes"] = probes(case)
     return d
 
 
+BAD = ("{| o_err := true; o_rows := []; o_conf := []; o_ours := []; o_ours_left := 9; o_theirs := []; o_theirs_left := 9; "
+       "o_ours_ix := []; o_theirs_ix := [] |}")
+
+
 def coq_case(case, out):
-    d = parse(case, out)
-    bad = ("{| o_err := true; o_rows := []; o_conf := []; o_ours := []; o_ours_left := 9; o_theirs := []; o_theirs_left := 9; "
-           "o_ours_ix := []; o_theirs_ix := [] |}")
-    if d is None:
-        return "({| i_s := []; i_b := []; i_l := []; i_r := []; i_probes := [] |}, %s)" % bad
+    ds = parse(case, out)
+    if ds is None:
+        return "[([], ({| i_s := []; i_b := []; i_l := []; i_r := []; i_probes := [] |}, %s))]" % BAD
+    return cq_list(coq_tab(d) for d in ds)
+
+
+def coq_tab(d):
     inp = "{| i_s := %s; i_b := %s; i_l := %s; i_r := %s; i_probes := %s |}" % (
-        g.cq_sch(d["s"]), g.cq_table(d["B"]), g.cq_table(d["L"]), g.cq_table(d["R"]), cq_list(g.cq_cell(probe_val(v)) for v in probes(case)))
+        g.cq_sch(d["s"]), g.cq_table(d["B"]), g.cq_table(d["L"]), g.cq_table(d["R"]), cq_list(g.cq_cell(probe_val(v)) for v in d.get("probes", [])))
+    prior = cq_list("(%d, (%s, %s, %s))" % (k, g.cq_orow(b), g.cq_orow(o_), g.cq_orow(t)) for k, b, o_, t in d.get("prior", []))
+    return "(%s, %s)" % (prior, coq_tab2(d, inp))
+
+
+def coq_tab2(d, inp):
     if d["err"] or not d["same"]:
-        return "(%s, %s)" % (inp, bad)
+        return "(%s, %s)" % (inp, BAD)
     conf = cq_list("(%d, (%s, %s, %s))" % (k, g.cq_orow(b), g.cq_orow(o_), g.cq_orow(t)) for k, b, o_, t in d["conf"])
+
     def ix(l):
         return cq_list("(%s, %s)" % (g.cq_cell(v), cq_list(str(k) for k in ks)) for v, ks in l)
     return ("(%s, {| o_err := false; o_rows := %s; o_conf := %s; o_ours := %s; o_ours_left := %d; o_theirs := %s; o_theirs_left := %d; "
@@ -165,9 +304,30 @@ def coq_case(case, out):
 
 
 def classify(case, out):
-    d = parse(case, out)
-    if d is None:
+    ds = parse(case, out)
+    if ds is None:
         return ["harness-error"]
+    t = []
+    for (tn, sc, suf), d in zip(tabs(case), ds):
+        t += classify_tab(sc, d)
+    if case.get("chain") and ds[0].get("refused"):
+        t.append("second-merge-refused")
+    if case.get("chain") and not ds[0]["err"]:
+        t.append("chained-merges")
+        prior_keys = {k for k, _, _, _ in ds[0].get("prior", [])}
+        new_keys = {k for k, _, _, _ in ds[0]["conf"]} - prior_keys
+        if prior_keys and new_keys:
+            t.append("conflicts-from-two-merges")     # artifacts with two different their-roots in one table
+    if len(ds) > 1:
+        t.append("two-tables")
+        if all((not d["err"]) and d["conf"] for d in ds):
+            t.append("multi-table-resolve")           # one resolve call, conflicts in both tables
+            if case.get("dot"):
+                t.append("multi-table-resolve-dot")
+    return sorted(set(t))
+
+
+def classify_tab(case, d):
     if d["err"]:
         return ["error"]
     t = ["conflict" if d["conf"] else "no-conflict"]
@@ -190,16 +350,22 @@ def classify(case, out):
         t.append("untouched-rows")
     if not d["same"]:
         t.append("two-merges-differ")
-    return sorted(set(t))
+    return t
 
 
 def nontrivial(case, out):
-    d = parse(case, out)
-    return bool(d and not d["err"] and d["conf"])
+    ds = parse(case, out)
+    return bool(ds and any((not d["err"]) and d["conf"] for d in ds))
 
 
 def shrink_candidates(case):
-    for side in ("l", "r"):
+    if case.get("u"):
+        for side in ("l", "r"):
+            for i in range(len(case["u"][side])):
+                c = copy.deepcopy(case)
+                del c["u"][side][i]
+                yield with_steps(c)
+    for side in ("l", "r") + (("r2",) if case.get("chain") else ()):
         for i in range(len(case[side])):
             c = copy.deepcopy(case)
             del c[side][i]
